@@ -180,6 +180,108 @@ def explore(inject_at=None, kind="reset", horizon=25.0, cycles=0):
     return res
 
 
+ERROR_SCENARIOS = {
+    # name: (phases, the error state the manager is expected to be in when the reset comes)
+    "long-blackout": ([(20, "healthy"), (270, "blackout")], "ERROR_*"),
+    "rf-fault": ([(20, "healthy"), (70, "rferr")], "ERROR_RF_FAULT"),
+    "needs-attention": ([(0.65, "healthy"), (70, "blackout")], "ERROR_NEEDS_ATTENTION"),
+}
+
+
+def explore_error(scenario, origin, yielding, settle=150.0):
+    """a reset in an error state on the REAL stack: `origin` = 'self' (the manager's own reset, issued from inside the spa's ping-loop
+    task when a ping is answered again) or 'user' (async_reset from a client task while the network is still down);
+    `yielding` = the client's event handler really suspends.  The ledger is taken after the network has been healthy for `settle` s."""
+    from geckolib import GeckoAsyncSpaMan
+    phases, want = ERROR_SCENARIOS[scenario]
+    res = {"resets": []}
+
+    async def body(loop):
+        callbacks = []
+
+        def client_cb(*a):
+            callbacks.append(loop.time())
+
+        class Man(GeckoAsyncSpaMan):
+            async def handle_event(self, event, **kw):
+                if yielding:
+                    await asyncio.sleep(0)
+
+            async def async_reset(self):
+                # ledger bookkeeping at the moment the reset starts: what belongs to the connection being abandoned
+                cur = asyncio.current_task()
+                rec = {"t": round(loop.time(), 3), "state": str(self.spa_state).split(".")[-1], "from_task": cur.get_name() if cur else "?",
+                       "transports": [t for t in loop.transports if not t.closed], "facade": self._facade, "spa": self._spa,
+                       "tasks": [t for t in asyncio.all_tasks() if not t.done() and t.get_name().split(":")[0] in ("SPA", "FACADE", "LOC")]}
+                if self._facade is not None:
+                    self._facade.watch(client_cb)
+                    for d in self._facade.all_automation_devices:
+                        if d is not None:
+                            d.watch(client_cb)
+                if self._spa is not None:
+                    self._spa.watch(client_cb)
+                    for a in list(self._spa.struct.accessors.values())[:50]:
+                        a.watch(client_cb)
+                res["resets"].append(rec)
+                try:
+                    await super().async_reset()
+                    rec["outcome"] = "returned"
+                except asyncio.CancelledError:
+                    rec["outcome"] = "cancelled"
+                    raise
+                except BaseException as e:  # noqa
+                    rec["outcome"] = f"raised {type(e).__name__}"
+                    raise
+        sim = fakenet.make_sim(SNAP)
+        net = fakenet.Network(loop, sim, phases=phases, seed=1)
+        loop.network = net
+        m = Man("uuid-1", spa_identifier=IDENT, spa_address="10.0.0.9", spa_name="Spa")
+        await m.__aenter__()
+        pump = [t for t in asyncio.all_tasks() if t.get_name() == "SPAMAN:Sequence Pump"][0]
+        healthy_from = sum(d for d, _ in phases)
+        user_done = False
+        while loop.time() < healthy_from + settle:
+            await asyncio.sleep(0.05)
+            st = str(m.spa_state).split(".")[-1]
+            if origin == "user" and not user_done and st.startswith("ERROR_"):
+                user_done = True
+                await asyncio.sleep(1.0)
+                await m.async_reset()
+        res["state_at_end"] = str(m.spa_state).split(".")[-1]
+        res["pump_alive"] = not pump.done()
+        first = res["resets"][0] if res["resets"] else None
+        if first is not None:
+            n_cb = len(callbacks)
+            import rig
+            for tr in first["transports"]:
+                for i in range(3):
+                    tr.deliver(rig.frame(IDENT.encode(), m._client_id, b"STATP\x01" + bytes([1, 10 + i, 0x55, 0xAA + i])), fakenet.SIM_ADDR)
+            await asyncio.sleep(3)
+            res["late_callbacks"] = len(callbacks) - n_cb
+            # everything that was open when the reset was issued belongs to the connection being abandoned (a new connection's endpoint is created later)
+            res["endpoint_open"] = [t.id for r in res["resets"] for t in r["transports"] if not t.closed]
+            res["tasks_alive"] = sorted({t.get_name() for r in res["resets"] for t in r["tasks"] if not t.done()})
+            obs = 0
+            for r in res["resets"]:
+                if r["facade"] is not None and r["facade"] is not m.facade:
+                    obs += sum(len(d._observers) for d in r["facade"].all_automation_devices if d is not None)
+                if r["spa"] is not None and r["spa"] is not m._spa:
+                    obs += len(r["spa"]._observers)
+            res["observers_left"] = obs
+            res["reset_states"] = [r["state"] for r in res["resets"]]
+            res["reset_from"] = [r["from_task"] for r in res["resets"]]
+            res["reset_outcomes"] = [r.get("outcome", "never-finished") for r in res["resets"]]
+        try:
+            await m.__aexit__(None, None, None)
+        except BaseException:  # noqa
+            pass
+    vloop.run_virtual(body, seed=1, stable=True)
+    for r in res["resets"]:
+        for k in ("transports", "facade", "spa", "tasks"):
+            r.pop(k, None)
+    return res
+
+
 def show(e, t, o, p):
     return f"endpointOpen={int(bool(e))} tasksAlive={int(bool(t))} observersLeft={int(bool(o))} pumpAlive={int(bool(p))}"
 
@@ -222,6 +324,32 @@ def run(ctx):
             ctx.violation(f"endpoint-open:exit:{proc}", dict(inp, kind="exit"), "every endpoint is closed at context exit", f"{len(x['open_at_end'])} still open")
         if x["tasks_at_end"]:
             ctx.violation(f"tasks-alive:exit:{proc}", dict(inp, kind="exit"), "every task terminates at context exit", x["tasks_at_end"][:5])
+    # ------------- resets in error states: the manager's own reset from inside the ping-loop task / a user reset, client handler yielding or not
+    for sc in ERROR_SCENARIOS:
+        for origin in ("self", "user"):
+            for yielding in (False, True):
+                e = explore_error(sc, origin, yielding)
+                ctx.count("evaluations")
+                ctx.hist("error_state_resets", f"{sc}:{origin}:{'yielding' if yielding else 'plain'}:{','.join(e.get('reset_states', ['none'])[:2])}")
+                if not e["resets"]:
+                    ctx.count("error_scenarios_without_reset")
+                    continue
+                inp = {"scenario": sc, "origin": origin, "yielding": yielding}
+                tag = f"{sc}:{origin}:{'yielding' if yielding else 'plain'}"
+                if origin == "self" and not any(f.startswith("SPA:") for f in e["reset_from"]):
+                    ctx.count("self_reset_not_from_spa_task")
+                if e["endpoint_open"]:
+                    ctx.violation(f"endpoint-open:error-reset:{tag}", inp, "every endpoint of the abandoned connection is closed", f"{len(e['endpoint_open'])} still open; reset {e['reset_outcomes']}")
+                if e["tasks_alive"]:
+                    ctx.violation(f"tasks-alive:error-reset:{tag}", inp, "every background task of the abandoned connection terminates", e["tasks_alive"][:5])
+                if e["observers_left"]:
+                    ctx.violation(f"observers-left:error-reset:{tag}", inp, "no observer left on abandoned objects", e["observers_left"])
+                if e["late_callbacks"]:
+                    ctx.violation(f"late-callback:error-reset:{tag}", inp, "late datagrams invoke no client observer", e["late_callbacks"])
+                if not e["pump_alive"]:
+                    ctx.violation(f"pump-dead:error-reset:{tag}", inp, "the manager keeps working after a reset", "sequence pump finished")
+                lines.append(f"errreset {origin} {int(yielding)}")
+                impl.append(show(e["endpoint_open"], e["tasks_alive"], e["observers_left"], e["pump_alive"]) + f" completed={int(e['reset_outcomes'][0] == 'returned')}")
     # ------------- cycles
     n = 4 if ctx.quick else 30
     cyc = explore(cycles=n, horizon=8.0)
@@ -250,12 +378,17 @@ def run(ctx):
     ctx.cov["distinct_nontrivial"] = len(points) * 2
     ctx.cov["exhaustive"] = True
     ctx.cov["rule"] = ("every await point the pump task's coroutine stack reaches during discovery, handshake and steady state on a healthy network (observed after "
-                       "every loop iteration), x {reset, exit}; plus n reconnect cycles. distinct non-trivial = (point, kind) pairs")
+                       "every loop iteration), x {reset, exit}; resets in error states (long blackout, RF-error period, blackout inside the handshake) x {the manager's own reset from inside the ping-loop "
+                       "task, a user reset} x {client handler returns at once, really yields}; plus n reconnect cycles. distinct non-trivial = (point, kind) pairs")
     ctx.assumptions += ["virtual-time loop with FIFO-stable timers; the spa is the bundled simulator with the default snapshot",
                         "'closed' = close() was called on the transport handed out by the loop"]
 
 
 def replay(inp):
+    if "scenario" in inp:
+        e = explore_error(inp["scenario"], inp["origin"], inp["yielding"])
+        bad = bool(e.get("endpoint_open") or e.get("tasks_alive") or e.get("observers_left") or e.get("late_callbacks") or not e.get("pump_alive", True))
+        return bad, {k: e.get(k) for k in ("endpoint_open", "tasks_alive", "observers_left", "late_callbacks", "pump_alive", "reset_outcomes", "state_at_end")}
     pt = tuple(inp["point"]) if "point" in inp else None
     if pt is None:
         c = explore(cycles=inp.get("cycles", 4), horizon=8.0).get("cycle_counts", [])
